@@ -1,4 +1,4 @@
 SPECIFICATION Spec
-CONSTANTS NT = 4 NI = 3 NK = 2 Bug = "none"
+CONSTANTS NT = 3 NI = 5 NK = 2 Bug = "none"
 INVARIANTS InvMutex InvUse InvFilledOnce InvFlagLast InvRules InvCache InvOneInsert InvNothingLost InvIO InvItems InvResult InvLocksFree
 CHECK_DEADLOCK TRUE
